@@ -27,7 +27,7 @@ static int op_pad(int argc, char **argv, FILE *o) {
 #include <sys/mman.h>
 /* the buffer is placed so that buf[-1] lies in a PROT_NONE page: a read before the buffer faults */
 static unsigned char *guarded_copy(const unsigned char *p, size_t n) {
-    static unsigned char *region; static const size_t cap = 1u << 20;
+    static __thread unsigned char *region; static const size_t cap = 1u << 20;   /* per thread: the threaded workload (C19) runs ops concurrently */
     if (region == NULL) {
         region = (unsigned char *) mmap(NULL, cap + 4096, PROT_READ | PROT_WRITE, MAP_PRIVATE | MAP_ANONYMOUS, -1, 0);
         if (region == MAP_FAILED) return NULL;
